@@ -191,4 +191,26 @@ theorem add_keeping_cache_witness :
     dispatch Eex d2.sigs d2.order tInt = .found 1 ∧
     ((d1.addC true ord [.one ⟨true, .cls 3⟩]).call Eex tInt).1 = .found 1 := by decide
 
+/-! ### patterns of an op class created after import -/
+
+/-- patterns copied into a new op class: the `subclass_register`ed patterns (`own k`) of every class of the
+    iterated list, bases first -/
+def classPatterns (own : Nat → List Sig) (iterated : List Nat) : List Sig := iterated.reverse.flatMap own
+
+/-- iterating the whole MRO, every pattern registered on ANY ancestor reaches the new class -/
+theorem classPatterns_complete (own : Nat → List Sig) (mro : List Nat) (k : Nat) (p : Sig)
+    (hk : k ∈ mro) (hp : p ∈ own k) : p ∈ classPatterns own mro := by
+  simp only [classPatterns, List.mem_flatMap, List.mem_reverse]
+  exact ⟨k, hk, hp⟩
+
+open FV.Gen.C16 in
+/-- **obligation over the generated source form of `OpMeta.__init__`**: it iterates `inspect.getmro(cls)`
+    and reads each class's `_subclass_registry` -/
+theorem opmeta_inherits_whole_mro : opMetaIteratesWholeMro = true := by decide
+
+/-- witness: iterating only the direct bases (class 2 ⊂ 1 ⊂ 0, the pattern is registered on 0) loses it -/
+theorem classPatterns_bases_only_witness :
+    let own : Nat → List Sig := fun k => if k == 0 then [[.one ⟨false, .fn 10 []⟩]] else []
+    (classPatterns own [2, 1, 0]).length = 1 ∧ (classPatterns own [1]).length = 0 := by decide
+
 end FV.Props.C16
